@@ -528,9 +528,10 @@ def proof_obligations(ctx, prop, theorems, allowed_axioms=frozenset()):
 
 
 TRUSTED_BASE = [
-    "Coq 8.16.1 kernel and vm_compute (no native_compute)",
-    "hand-written Gallina model under /verif/coq (tied to /repo by the correspondence check of this run)",
-    "harness crate /verif/harness (OV value source, Rec error type, ToOut, user function library)",
-    "Python generators/emitter under /verif/gen and run.py",
-    "cargo/rustc building /repo",
+    "Coq 8.16.1 kernel and vm_compute (no native_compute, no extraction); every theorem of Properties/*.v is closed under the global context (Print Assumptions audited on this run; no axiom allow-list entries)",
+    "hand-written Gallina model under /verif/coq (Deser.v, Derive.v, Scalars.v, Fround.v, Json.v, Messages.v, Http.v ...) and the declarative specification Spec.v - tied to /repo by the correspondence check of this run on this run's inputs, unchecked beyond them",
+    "harness crates /verif/harness, harness_reject, harness_http (OV value source, Rec recording error type, ToOut, logging user-function library and its Gallina twin ufail)",
+    "Python generators / Coq emitter under /verif/gen and run.py",
+    "cargo/rustc building /repo; for C16 rustc's diagnostics attributed to items by source line; for C20 the frameworks' own extractors as oracle",
+    "modelled dependencies (strsim, convert_case on ASCII identifiers, str::to_lowercase, FromStr of std integers, serde-cs, serde_json Number/Map): tied by correspondence, not proved",
 ]
